@@ -387,6 +387,7 @@ func Fact(t Src, d Domain, label string) *facts.Fact {
 		f.RO[i] = gi(reflect.Int64, "RO")
 	}
 	f.SetWrapped()
+	f.NB = facts.Switch(t.Bool(label + "NB"))
 	f.ROM = map[string]int64{}
 	for _, k := range MapKeys {
 		f.ROM[k] = gi(reflect.Int64, "ROM")
